@@ -25,7 +25,6 @@ import (
 // ICX is 10^18 loop.
 var ICX = new(big.Int).Exp(big.NewInt(10), big.NewInt(18), nil)
 
-
 // Quiet silences goloop's global logger.
 func Quiet() {
 	log.GlobalLogger().SetLevel(log.FatalLevel)
@@ -740,6 +739,19 @@ func (w *World) GenOp(r *rand.Rand, o *Obs) *Op {
 func (w *World) OpSetStake(from module.Address, v *big.Int, intent string) *Op {
 	return &Op{Kind: "setStake", From: w.Name(from), from: from, Arg: v.String(), Intent: intent, amount: v,
 		tx: w.Sim.SetStake(from, v)}
+}
+
+// OpSetDelegation builds a setDelegation operation outside the random generator; the arguments go
+// through goloop's own validator like the generated ones.
+func (w *World) OpSetDelegation(from module.Address, targets []module.Address, amounts []*big.Int, intent string) *Op {
+	op := &Op{Kind: "setDelegation", From: w.Name(from), from: from, Arg: describeVotes(w, targets, amounts), Intent: intent}
+	ds, err := icstate.NewDelegations(votesParam(targets, amounts), int(w.extState().GetDelegationSlotMax()))
+	if err != nil {
+		op.Err = "rejected-by-validator: " + err.Error()
+		return op
+	}
+	op.tx = w.Sim.SetDelegation(from, ds)
+	return op
 }
 
 func sortedKeys(m map[string]*PRepObs) []string {
